@@ -433,6 +433,16 @@ pub fn start_systemd_service() -> Result<(), String> {
   Ok(())
 }
 
+// Verification hooks: public wrappers for the private unit-text builder and layout saver.
+#[cfg(ellbur_totalmapper_verif)]
+pub fn verif_build_service_text(excludes: &[&str]) -> String {
+  build_service_text(excludes.iter().map(|s| *s))
+}
+#[cfg(ellbur_totalmapper_verif)]
+pub fn verif_write_layout_to_global_config(layout: &Layout) -> Result<(), String> {
+  write_layout_to_global_config(layout)
+}
+
 #[cfg(test)]
 mod tests {
   use crate::udev_utils::{systemd_arg_escape, build_exclude_text};
